@@ -337,3 +337,22 @@ impl JunosOpts {
         &self.ephemeral_db
     }
 }
+
+#[cfg(bgpfu_verif)]
+impl IrrdOpts {
+    pub(super) fn verif_new() -> Self {
+        Self {
+            host: "localhost".to_string(),
+            port: 43,
+        }
+    }
+}
+
+#[cfg(bgpfu_verif)]
+impl JunosOpts {
+    pub(super) fn verif_new() -> Self {
+        Self {
+            ephemeral_db: "bgpfu".to_string(),
+        }
+    }
+}
